@@ -671,6 +671,13 @@ fn string_from_utf8''')]},
      'edits': [(COMP, "self.chunk().code.len() - loop_start + 2;", "self.chunk().code.len() - loop_start + 3;")]},
     {'name': 'P12 number comparison helper unwraps partial_cmp', 'prop': 'C02', 'expect': 'P12 / utils::cmp_numbers',
      'edits': [(UTILS, "pub(crate) fn hash_number(", "pub(crate) fn cmp_numbers(a: f64, b: f64) -> std::cmp::Ordering {\n    a.partial_cmp(&b).unwrap()\n}\n\n#[allow(dead_code)]\npub(crate) fn hash_number(")]},
+    # ---- round 12 ---------------------------------------------------------------------------------------
+    {'name': 'X21 implicit return skips the JumpFinally chain', 'prop': 'C08', 'expect': 'X21 / emit_return',
+     'edits': [(COMP, "        self.emit_jumps_to_finally();\n        self.emit_byte(OpCode::Return as u8);\n    }\n\n    /// A return leaves", "        self.emit_byte(OpCode::Return as u8);\n    }\n\n    /// A return leaves")]},
+    {'name': 'E15 compound assignment compiles its right-hand side before loading the target', 'prop': 'C05', 'expect': 'E15 / binary_assign',
+     'edits': [(COMP, "        self.emit_variable_op(get_op, variable);\n        self.expression();\n        match op_kind {", "        self.expression();\n        self.emit_variable_op(get_op, variable);\n        match op_kind {")]},
+    {'name': 'L18 run_file prints the report line by line', 'prop': 'C17', 'expect': 'L18 / yarel_cli::run_file',
+     'edits': [('yarel-cli/src/main.rs', "        eprint!(\"{}\", error);", "        for line in error.messages() {\n            eprintln!(\"{}\", line);\n        }")]},
 ]
 
 BENIGN = [
